@@ -2,7 +2,9 @@
 // scripted raw client: every class of first client action x every checker behaviour x
 // several splits of the byte stream, with pipelined application frames behind it.
 // A second family (first-action class "bearer") dials with the real auth bearer plugin
-// against the same server and against a scripted server.
+// against the same server and against a scripted server. Overlap family: two connections pending in
+// the checker's read at once. Gated family (gated.go): 2..4 connections under a drawn schedule whose
+// checkers are parked between RecvOnce and their verdict.
 package main
 
 import (
@@ -209,6 +211,10 @@ var theChecker = auth.NewCheckerPlugin(
 	func(sess auth.Session, fn auth.RecvOnce) (interface{}, *erpc.Status) {
 		c := curCk
 		addr := sess.RemoteAddr().String()
+		if g := gateFor(addr); g != nil {
+			// gated family (gated.go): behaviour set per connection, checker parked between RecvOnce and its verdict
+			return gatedCheck(sess, fn, g)
+		}
 		var info string
 		var s1 *erpc.Status
 		if c.panicAt == 1 {
@@ -405,6 +411,11 @@ type script struct {
 	expectAccept  bool
 	expectReplies int
 	expectExit    bool
+	// gated family: the info this connection's own auth frame carries (hasOwn: its first frame is a
+	// well-formed AUTH_CALL whose info the checker's receiver can decode), and whether it is the right one
+	hasOwn   bool
+	ownInfo  []byte
+	ownRight bool
 }
 
 type snapshot struct {
@@ -428,6 +439,12 @@ type outcome struct {
 	resMid       string // state of the resident session holding claimedID (SetID cases): alive | displaced | ...
 	resFin       string
 	authOK       bool // the harness' own plugins: checker verdict OK and nobody else in the chain failed
+	// gated family: what the checker held right after RecvOnce returned OK, and when it took its verdict
+	gated     bool
+	infoOK    bool
+	atRecv    []byte
+	atVerdict []byte
+	saidOK    bool // the checker function returned (ret, nil)
 }
 
 // server is one server peer (one way of configuring the plugin chain) with its listener address.
@@ -456,6 +473,8 @@ type liveConn struct {
 	overlap bool         // another connection is alive: look only at this connection's own listing
 	res     *liveConn    // the resident session holding claimedID (SetID cases), if any
 	resSess erpc.Session // ... its server-side session
+	gate    *gateCfg     // gated family: this connection's checker behaviour and gate
+	sent    []byte
 }
 
 func (l *liveConn) isServed() bool {
@@ -486,17 +505,28 @@ func (l *liveConn) nReplies() int {
 	return n
 }
 
-func openConn(sv *server, sc *script) *liveConn {
-	l := &liveConn{sv: sv, sc: sc, o: &outcome{}}
+func openConn(sv *server, sc *script, g *gateCfg) *liveConn {
+	l := &liveConn{sv: sv, sc: sc, o: &outcome{}, gate: g}
 	if sc.entry == "listener" {
-		c, err := net.Dial("tcp", sv.listenAddr)
-		Must(err)
+		c := dialFresh(sv.listenAddr)
 		l.cc = c
 		l.addr = c.LocalAddr().String()
+		claimAddr(l.addr)
+		registerGate(l.addr, g) // the checker of a gated case waits for this entry
 	} else {
 		c, sconn := TCPPair()
+		// every pair has a listener of its own, so two live pairs (the resident of a SetID case and
+		// the connection under test, the connections of a gated case) may get the same client port:
+		// the records are keyed by the client address, take another pair then
+		for addrLive(c.LocalAddr().String()) {
+			c.Close()
+			sconn.Close()
+			c, sconn = TCPPair()
+		}
 		l.cc = c
 		l.addr = c.LocalAddr().String()
+		claimAddr(l.addr)
+		registerGate(l.addr, g)
 		go func() {
 			s, _ := sv.peer.ServeConn(sconn)
 			if s != nil {
@@ -506,6 +536,57 @@ func openConn(sv *server, sc *script) *liveConn {
 			atomic.StoreInt32(&l.served, 1)
 		}()
 	}
+	if g == nil {
+		l.startReader()
+	}
+	return l
+}
+
+// Client addresses are the key of the per-connection records, so the live connections of the
+// harness must have distinct ones. Connections to ONE listener always have; a ServeConn pair has a
+// listener of its own, and the kernel may give the same ephemeral port to two sockets connected to
+// different listeners. liveAddrs holds the client addresses in use (recMu).
+var liveAddrs = map[string]bool{}
+
+func addrLive(a string) bool {
+	recMu.Lock()
+	defer recMu.Unlock()
+	return liveAddrs[a]
+}
+func claimAddr(a string) {
+	recMu.Lock()
+	liveAddrs[a] = true
+	recMu.Unlock()
+}
+
+// dialFresh connects to the server's listener from an explicitly bound local port that no live socket
+// of the machine uses (a port the kernel just handed to a throw-away listener): an explicitly bound
+// port is never shared with a socket that gets its port at connect time, in either order.
+func dialFresh(to string) net.Conn {
+	for i := 0; ; i++ {
+		pl, err := net.Listen("tcp", "127.0.0.1:0")
+		Must(err)
+		la := pl.Addr().(*net.TCPAddr)
+		pl.Close()
+		if addrLive(la.String()) {
+			continue
+		}
+		d := net.Dialer{LocalAddr: &net.TCPAddr{IP: la.IP, Port: la.Port}, Timeout: 5 * time.Second}
+		c, err := d.Dial("tcp", to)
+		if err == nil {
+			return c
+		}
+		if i > 50 {
+			Must(err)
+		}
+	}
+}
+
+// startReader reads everything the server writes to this client. (It goes through the repository's
+// protocol code, which takes a pooled byte buffer per read: in the gated family it is started only
+// once the verdicts are in, so that the only users of the pool during the exchange are the
+// server-side reads of the connections of the case.)
+func (l *liveConn) startReader() {
 	rp := NewRawPeer(l.cc)
 	go func() {
 		for {
@@ -519,7 +600,6 @@ func openConn(sv *server, sc *script) *liveConn {
 			l.rmu.Unlock()
 		}
 	}()
-	return l
 }
 
 // listedSelf: is THIS connection's session in the index (under its address, or under the id its
@@ -569,21 +649,33 @@ func (l *liveConn) snap() snapshot {
 }
 
 func (l *liveConn) sendAll() {
+	l.writeChunks()
+	l.afterWrite()
+}
+
+// waitServer: the server has decided on this connection, or it sits in a blocking read
+func (l *liveConn) waitServer() {
 	sc := l.sc
-	var sent []byte
-	waitServer := func() {
-		if needMore(sent) && sc.ck.recvs > 0 && sc.ck.panicAt != 1 && (sc.ck.before == "" || sc.ck.before == "ok") {
-			time.Sleep(settle)
-			return
-		}
-		waitFor(l.isServed)
+	if needMore(l.sent) && sc.ck.recvs > 0 && sc.ck.panicAt != 1 && (sc.ck.before == "" || sc.ck.before == "ok") {
+		time.Sleep(settle)
+		return
 	}
+	if l.gate != nil {
+		waitFor(func() bool { return l.isServed() || l.gate.isParked() })
+		return
+	}
+	waitFor(l.isServed)
+}
+
+func (l *liveConn) writeChunks() {
+	sc := l.sc
+	waitServer := l.waitServer
 	for i, ch := range sc.chunks {
 		if len(ch) > 0 {
 			if _, err := l.cc.Write(ch); err != nil {
 				break
 			}
-			sent = append(sent, ch...)
+			l.sent = append(l.sent, ch...)
 		}
 		if i == sc.pauseAt {
 			waitServer()
@@ -596,6 +688,10 @@ func (l *liveConn) sendAll() {
 		}
 	}
 	waitServer()
+}
+
+func (l *liveConn) afterWrite() {
+	sc := l.sc
 	if l.isServed() {
 		waitFor(func() bool {
 			if l.isEOF() {
@@ -678,9 +774,18 @@ func (l *liveConn) finish() *outcome {
 	o.rec.calls = append([]int32(nil), o.rec.calls...)
 	o.rec.pushes = append([]int32(nil), o.rec.pushes...)
 	delete(recs, l.addr)
+	delete(liveAddrs, l.addr)
 	recMu.Unlock()
 	o.fnCalls, o.fnMulti = o.rec.fnCalls, o.rec.fnMulti
 	o.authOK = o.rec.ckSaidOK && !o.rec.otherFailed
+	if g := l.gate; g != nil {
+		o.gated, o.saidOK = true, o.rec.ckSaidOK
+		o.infoOK, o.atRecv, o.atVerdict = g.observed()
+		// ground truth of the gated family: the exchange succeeded only if the auth frame THIS
+		// connection sent carried the right credential (whatever the checker function concluded)
+		o.authOK = o.authOK && l.sc.ownRight
+		unregisterGate(l.addr)
+	}
 	sort.Slice(o.rec.calls, func(i, j int) bool { return o.rec.calls[i] < o.rec.calls[j] })
 	sort.Slice(o.rec.pushes, func(i, j int) bool { return o.rec.pushes[i] < o.rec.pushes[j] })
 	return o
@@ -690,7 +795,7 @@ func (l *liveConn) finish() *outcome {
 // without an exchange and names the session after accepting), through ServeConn.
 func openResident(sv *server) *liveConn {
 	curCk = checkerCfg{recvs: 0, mode: "all", setID: "post"}
-	r := openConn(sv, &script{entry: "serveconn", pauseAt: -1, repliesAt: -1})
+	r := openConn(sv, &script{entry: "serveconn", pauseAt: -1, repliesAt: -1}, nil)
 	waitFor(r.isServed)
 	if r.sess == nil {
 		Must(fmt.Errorf("could not establish the resident session"))
@@ -708,6 +813,7 @@ func closeResident(sv *server, r *liveConn) {
 	})
 	recMu.Lock()
 	delete(recs, r.addr)
+	delete(liveAddrs, r.addr)
 	recMu.Unlock()
 	waitFor(func() bool { return sv.peer.CountSession() == 0 })
 }
@@ -718,7 +824,7 @@ func runCase(sv *server, sc *script) *outcome {
 		res = openResident(sv)
 	}
 	curCk = sc.ck
-	l := openConn(sv, sc)
+	l := openConn(sv, sc, nil)
 	if res != nil {
 		l.res, l.resSess = res, res.sess
 	}
@@ -735,8 +841,8 @@ func runCase(sv *server, sc *script) *outcome {
 // stream, then B. Each must behave exactly as it would alone.
 func runOverlap(sv *server, a, b *script) (*outcome, *outcome) {
 	curCk = a.ck
-	la := openConn(sv, a)
-	lb := openConn(sv, b)
+	la := openConn(sv, a, nil)
+	lb := openConn(sv, b, nil)
 	la.overlap, lb.overlap = true, true
 	time.Sleep(settle) // both connections accepted by the listener, both checkers waiting for a frame
 	la.sendAll()
@@ -825,7 +931,22 @@ func oracle(st *Stats, i int, sc *script, o *outcome) {
 	if !o.eofAfter || !o.servedInTime {
 		st.Fail(i, "not-quiescent", "server did not finish the connection after the client's EOF", h)
 	}
-	if accepted && !o.authOK {
+	if o.gated {
+		// the verdict is a function of THIS connection's own auth frame
+		if o.infoOK && !(sc.hasOwn && bytes.Equal(o.atRecv, sc.ownInfo)) {
+			st.Fail(i, "auth-info-not-own-frame", Fmt("RecvOnce handed the checker %q, the connection's own auth frame carried %q (has one: %v)", o.atRecv, sc.ownInfo, sc.hasOwn), h)
+		}
+		if o.infoOK && !bytes.Equal(o.atVerdict, o.atRecv) {
+			st.Fail(i, "auth-info-changed-before-verdict", Fmt("the info the checker received (%q) read %q when it took its verdict: reads on other connections changed it", o.atRecv, o.atVerdict), h)
+		}
+		if o.saidOK != (o.infoOK && sc.ownRight) {
+			st.Fail(i, "verdict-not-from-own-frame", Fmt("checker verdict ok=%v on a connection whose own auth frame carried the right credential=%v (info %q)", o.saidOK, sc.ownRight, sc.ownInfo), h)
+		}
+		if accepted && !sc.ownRight {
+			st.Fail(i, "accepted-without-own-credential", "connection accepted although the auth frame it sent itself never carried the right credential", h)
+		}
+	}
+	if accepted && !o.authOK && !(o.gated && o.saidOK && !o.rec.otherFailed) {
 		st.Fail(i, "accepted-without-auth", "ServeConn returned a session although the checker did not return OK or another PostAccept plugin refused / panicked", h)
 	}
 	if !accepted || !o.authOK {
@@ -1253,11 +1374,13 @@ func genCase(cfg *RunCfg, force *checkerCfg, forceClass string) *script {
 var serverOrders = []string{"newpeer", "append-right-after-routes", "append-left-before-routes"}
 
 func newServerPeer(order string) *server {
-	// a free loopback port for the ListenAndServe entry point
+	// the listener of the ListenAndServe entry point is opened here and handed to the accept path
+	// (erpc.VerifServeListener = peer.serveListener): ListenAndServe itself opens the configured
+	// address and ends the process, silently with the logger off, when another process of this busy
+	// machine took the port in the meantime
 	pl, err := net.Listen("tcp", "127.0.0.1:0")
 	Must(err)
 	port := pl.Addr().(*net.TCPAddr).Port
-	pl.Close()
 	sv := &server{order: order, listenAddr: Fmt("127.0.0.1:%d", port)}
 	pc := erpc.PeerConfig{LocalIP: "127.0.0.1", ListenPort: uint16(port)}
 	chain := []erpc.Plugin{otherAccept{after: false}, theChecker, otherAccept{after: true}, recorder{}}
@@ -1277,7 +1400,7 @@ func newServerPeer(order string) *server {
 		sv.peer.RouteCall(new(App))
 		sv.peer.RoutePush(new(Note))
 	}
-	go sv.peer.ListenAndServe()
+	go erpc.VerifServeListener(sv.peer, pl)
 	if !WaitUntil(longWait, func() bool {
 		c, err := net.DialTimeout("tcp", sv.listenAddr, time.Second)
 		if err != nil {
@@ -1319,7 +1442,7 @@ func main() {
 	recMu.Unlock()
 
 	st := NewStats("C16", cfg)
-	st.Rule = "case = (checker behaviour, client byte stream, split); first action in {auth-ok, auth-wrong, call, push, reply, unknown-type, malformed:*, truncated, nothing, auth-status, auth-codec} x checker {recv once eq/all/none, recv twice propagate/ignore, no recv accept/reject} x split {one-write, pause-after-first, byte-by-byte, pause-at-random-offset} x 0..4 pipelined frames (+ truncated/malformed tail); distinct by (checker, stream, split); non-trivial = stream non-empty"
+	st.Rule = "gated family: 2..4 connections x schedule of open/send/verdict steps (random, all-open-first, staggered) x info receiver {*string plain codec, *[]byte, json struct} x first action {right token, wrong token of equal length, other length, call, push, truncated, nothing} x GOMAXPROCS {1, default}, checker parked between RecvOnce and its verdict; other families: case = (checker behaviour, client byte stream, split); first action in {auth-ok, auth-wrong, call, push, reply, unknown-type, malformed:*, truncated, nothing, auth-status, auth-codec} x checker {recv once eq/all/none, recv twice propagate/ignore, no recv accept/reject} x split {one-write, pause-after-first, byte-by-byte, pause-at-random-offset} x 0..4 pipelined frames (+ truncated/malformed tail); distinct by (checker, stream, split); non-trivial = stream non-empty"
 	w := NewCaseWriter(cfg)
 	distinct := DistinctSet{}
 	done := 0
@@ -1354,7 +1477,23 @@ func main() {
 				st.Samples = append(st.Samples, sc.human+" => "+render(o))
 			}
 		}
-		if cfg.Rng.Intn(8) == 0 {
+		fam := cfg.Rng.Intn(16)
+		if fam >= 2 && fam < 5 {
+			// 2..4 connections under a drawn schedule, every checker parked between RecvOnce and its verdict
+			gc := genGated(cfg)
+			os := runGated(servers[gc.order], gc)
+			st.Count("family:gated")
+			st.Count("gated-receiver:" + gc.kind)
+			st.Count("gated-schedule:" + gc.pat)
+			st.Count(Fmt("gated-procs:%d", gc.procs))
+			st.Count(Fmt("gated-connections:%d", len(gc.conns)))
+			for c, sc := range gc.conns {
+				record(sc, os[c])
+			}
+			w.Add(vgated(gc), renderGated(os))
+			continue
+		}
+		if fam < 2 {
 			// two connections whose accept phases overlap (listener entry)
 			ck := checkerCfg{recvs: 1, mode: "eq", token: genToken(cfg)}
 			classA := ""
